@@ -83,7 +83,7 @@ def main(chk):
     chk.prove()
     rng = chk.rng
     plan = []
-    reps = 2 if chk.tier == 'quick' else 25
+    reps = 4 if chk.tier == 'quick' else 30
     for r in range(reps):
         for name in ('mst', 'aim', 'mwem', 'mwem', 'adagrid'):
             plan.append((name, None))
